@@ -10,7 +10,7 @@ from __future__ import annotations
 import ast
 
 from .. import anchors as A
-from ..model import AnalysisError, Project, call_name, kwarg, walk_local
+from ..model import AnalysisError, Project, call_name, kwarg, local_values, walk_local
 from ..report import Report
 from . import _stdio
 
@@ -25,6 +25,30 @@ def check(P: Project, R: Report) -> None:
     R.rule("R2", "option denylist: no orjson option or stdlib keyword that changes values or frames is set by the module itself (OPT_INDENT_2 only when the caller asked for indent; no OPT_APPEND_NEWLINE; OPT_STRICT_INTEGER only with the stdlib fallback arm; no parse_*/object_hook keywords)")
     R.rule("R3", "frame safety: no NDJSON frame writer passes indent to the serialiser")
     mod = P.module(A.MOD_FASTJSON)
+
+    def module_alias(name: str):
+        """`_fast_dumps = _orjson.dumps` bound at import time (None/0 placeholders on the branch without the library are
+        ignored): the dotted callable the module-level name abbreviates, else None"""
+        vals = set()
+        for n_ in ast.walk(mod.tree):
+            if isinstance(n_, (ast.FunctionDef, ast.AsyncFunctionDef)):
+                continue
+            if isinstance(n_, ast.Assign) and any(isinstance(t, ast.Name) and t.id == name for t in n_.targets):
+                if isinstance(n_.value, ast.Constant):
+                    continue
+                vals.add(ast.unparse(n_.value))
+        if len(vals) == 1:
+            v_ = next(iter(vals))
+            if "." in v_ and "(" not in v_:
+                return v_
+        return None
+
+    def lib_call_name(c_: ast.Call) -> str:
+        nm = call_name(c_)
+        if isinstance(c_.func, ast.Name):
+            return module_alias(nm) or nm
+        return nm
+
     for fname in ("dumps", "loads"):
         f = P.func(A.MOD_FASTJSON, fname)
         R.fn(f.fq)
@@ -37,15 +61,38 @@ def check(P: Project, R: Report) -> None:
         for s in rebinds:
             ok = ast.unparse(s.value) in (f"{p0}.decode('utf-8')", f"{p0}.decode('utf8')", f"{p0}.decode()")
             R.ob("R1", f"{fname}: input is only re-decoded as UTF-8", ok, f"{mod.rel}:{s.lineno}", f"`{ast.unparse(s)}` transforms the caller's input")
+        lv = local_values(f.node)
+
+        def through_local(e, depth=0):
+            """a local bound exactly once stands for its definition"""
+            if isinstance(e, ast.Name) and e.id != p0 and depth < 4:
+                vals = lv.get(e.id) or []
+                if len(vals) == 1 and vals[0] is not None:
+                    return through_local(vals[0], depth + 1)
+            return e
+
+        def is_input(e, depth=0) -> bool:
+            """the caller's object itself, or — for text input — the same bytes decoded as UTF-8; through locals"""
+            if depth > 4:
+                return False
+            if isinstance(e, ast.Name) and e.id == p0:
+                return True
+            if ast.unparse(e) in (f"{p0}.decode('utf-8')", f"{p0}.decode('utf8')", f"{p0}.decode()"):
+                return True
+            if isinstance(e, ast.Name):
+                vals = lv.get(e.id) or []
+                return bool(vals) and all(v_ is not None and is_input(v_, depth + 1) for v_ in vals)
+            return False
+
         for r in rets:
-            v = r.value
+            v = through_local(r.value)
             where = f"{mod.rel}:{r.lineno}"
             decoded = None
-            if isinstance(v, ast.Call) and isinstance(v.func, ast.Attribute) and v.func.attr == "decode" and isinstance(v.func.value, ast.Call):
+            if isinstance(v, ast.Call) and isinstance(v.func, ast.Attribute) and v.func.attr == "decode" and isinstance(through_local(v.func.value), ast.Call):
                 decoded = v
-                v = v.func.value
-            ok_shape = isinstance(v, ast.Call) and call_name(v).endswith(f".{fname}") and len(v.args) >= 1 and ast.unparse(v.args[0]) == p0
-            lib = call_name(v).rsplit(".", 1)[0] if isinstance(v, ast.Call) else "?"
+                v = through_local(v.func.value)
+            ok_shape = isinstance(v, ast.Call) and lib_call_name(v).endswith(f".{fname}") and len(v.args) >= 1 and is_input(v.args[0])
+            lib = lib_call_name(v).rsplit(".", 1)[0] if isinstance(v, ast.Call) else "?"
             kind, target = P.resolve_name(A.MOD_FASTJSON, lib)
             backend = target if kind in ("module", "external") else lib
             if "orjson" in str(backend) or "orjson" in lib:
@@ -64,6 +111,12 @@ def check(P: Project, R: Report) -> None:
         R.ob("R1", f"{fname}: both sibling branches exist", branches == {"orjson", "stdlib"}, f.where, f"branches {sorted(branches)}")
         # options
         opts = {n.attr: n for n in walk_local(f.node) if isinstance(n, ast.Attribute) and n.attr.startswith("OPT_")}
+        # options reached through a module-level abbreviation (`_OPT_PRETTY = _orjson.OPT_INDENT_2`)
+        for n in walk_local(f.node):
+            if isinstance(n, ast.Name) and isinstance(n.ctx, ast.Load):
+                al = module_alias(n.id)
+                if al and al.split(".")[-1].startswith("OPT_"):
+                    opts.setdefault(al.split(".")[-1], n)
         has_fallback_arm = any(isinstance(t, ast.Try) and any("orjson" in ast.unparse(s) for s in t.body) and any("_stdlib_json" in ast.unparse(s) or "json." in ast.unparse(s) for h in t.handlers for s in h.body) for t in walk_local(f.node))
         R.extra[f"{fname}_fallback_on_exception_arm"] = has_fallback_arm
         for name, node in sorted(opts.items()):
